@@ -169,6 +169,7 @@ def setup(mk, inst, stub_restart_block=True):
     c._Controller__hooks = [h for h in c.hooks if type(h).__name__ == 'RecHook']
     fresh = ctrl.Fresh(mk)
     cc = DtCC(trace, fresh, mk)
+    real_ccs = list(c.convergence_controllers)  # the real (MPI flavoured) convergence controllers, for their own contracts
     c.convergence_controllers = [cc]
     c.convergence_controller_order = [0]
     S = c.S
@@ -176,7 +177,7 @@ def setup(mk, inst, stub_restart_block=True):
     mk.assume(dt > 0, 'dt>0')
     for L in S.levels:
         L.params.dt = dt
-    st = State(c=c, S=S, log=log, trace=trace, world=world, mk=mk, fresh=fresh, inst=inst, dt=dt, mod=mod)
+    st = State(c=c, S=S, log=log, trace=trace, world=world, mk=mk, fresh=fresh, inst=inst, dt=dt, mod=mod, real_ccs=real_ccs)
 
     if stub_restart_block:
         def restart_block(size, time, u0, comm):
